@@ -143,6 +143,20 @@ def run(ctx):
                     viol.append({"what": "outcome on a reused object differs from a fresh object",
                                  "input": {"kbpk": kbpk.hex(), "ops": [core.op_token(x) for x in ops[:i + 1]]},
                                  "expected": [fout[:80], fh[:120]], "observed": [out[:80], core.show_header(kb.header)[:120]]})
+    # Blocks.load called directly (the documented "clears all current optional blocks before loading new ones"): count 0 and
+    # count > 0 on a populated object
+    for n_, text, want in ((0, "", []), (0, "KS04", []), (1, "T104", [("T1", "")]), (2, "T205xKS06ab", [("T2", "x"), ("KS", "ab")])):
+        hb = tr31.Header("B", "P0", "T", "E")
+        hb.blocks["KS"] = "old"
+        hb.blocks["ZZ"] = "older"
+        try:
+            hb.blocks.load(n_, text)
+            got = list(hb.blocks.items())
+        except Exception as e:  # noqa: BLE001
+            got = repr(e)[:100]
+        if got != want:
+            viol.append({"what": "Blocks.load on a populated object does not leave exactly the loaded blocks", "input": {"blocks_num": n_, "text": text},
+                         "expected": want, "observed": got})
     for (kbpk, ops), (impl, model) in list(zip(seqs, both))[:4]:
         samples.append({"ops": [core.op_token(o_)[:50] for o_ in ops], "outcomes": [x[:40] for x in impl[1]]})
     return {"evaluations": len(seqs), "distinct_nontrivial": len(nontriv), "samples": samples, "distribution": dist,
